@@ -455,14 +455,15 @@ Section Engine.
                 (* if self.loop_index >= self.count - 1: raise StopIteration *)
                 match obind (Val.binop OSub count (VInt 1)) (fun c1 => cmp OGe (VInt loop_index) c1) with
                 | Yield true => (Stop, st0)
-                | Yield false => go 0 (loop_index + 1)
+                | Yield false => if zlen values1 =? 0 then (Stop, st0) else go 0 (loop_index + 1)   (* repaired (C10): an empty input ends *)
                 | oc => (ocast oc, st0)
                 end
               else go pos loop_index
           end
       | PPingPong pattern count values pos dir rpos =>
-          (* if self.pos == 1 and self.rpos >= self.count: raise StopIteration *)
-          match (if pos =? 1 then cmp OGe (VInt rpos) count else Yield false) with
+          (* if (self.pos == 1 and self.rpos >= self.count) or self.pos >= len(self.values): raise StopIteration
+             (repaired, C10: an input of fewer than two values ends instead of raising IndexError) *)
+          match obind (if pos =? 1 then cmp OGe (VInt rpos) count else Yield false) (fun b => Yield (b || (pos >=? zlen values))) with
           | Yield true => (Stop, p)
           | Yield false =>
               match py_index values pos with                (* rv = self.values[self.pos] *)
